@@ -67,6 +67,11 @@ var c04Anchors = [][2]string{
 	{"SELECT a FROM (", ")"},
 	{"GRANT ", " ON d TO u"},
 	{"SELECT a, ", " FROM m"},
+	{"CREATE CONTINUOUS QUERY q ON d BEGIN SELECT count(a) INTO t FROM m GROUP BY time(", ") END"},
+	{"SHOW TAG VALUES WITH KEY =~ ", ""},
+	{"SHOW TAG KEYS FROM m WITH KEY !~ ", " WHERE a = 1"},
+	{"SELECT a FROM m WHERE a = 1 GROUP BY ", ""},
+	{"DELETE ", ""},
 }
 
 // any Unicode scalar value, NUL included (invalid UTF-8 reaches the lexer as U+FFFD, which is one of them)
